@@ -709,6 +709,11 @@ def model_exe():
                        ["theories/BuilderOrder.v", "theories/Udp.v", "theories/Tcp.v", "theories/Attrib.v", "theories/Import.v"])[0]
 
 
+def setup():
+    """bin/check --setup: extraction + driver build (the Coq project is built by setup itself)"""
+    model_exe()
+
+
 def run_model(exe, cf, tag, prop="c05"):
     d = os.path.join(BUILD, "run", prop)
     mout = os.path.join(d, "model_%s.out" % tag)
@@ -721,7 +726,7 @@ def run_model(exe, cf, tag, prop="c05"):
 
 def step_obs(st):
     """what is compared between model and implementation after one import"""
-    return {"new": st["new"], "upd": st["upd"], "reset": st["reset"], "added": st["added"],
+    return {"new": st["new"], "upd": sorted(st["upd"]), "reset": sorted(st["reset"]), "added": sorted(st["added"]),
             "streams": {i: canon_stream(s) for i, s in st["streams"].items()}}
 
 
